@@ -46,11 +46,11 @@ pub fn plan(prop: &str, tier: &str, ctx: &Ctx) -> (u64, u64, String) {
         "C10" => {
             let l = if thorough { 5 } else { 4 };
             let tl = if thorough { 4 } else { 3 };
-            let ex = crate::gen::count_strings(16, l) + crate::gen::count_token_strings(tl) + crate::gen::count_context_cases();
+            let ex = crate::gen::count_strings(16, l) + crate::gen::count_token_strings(tl) + crate::gen::count_context_cases() + crate::scale::FAMILIES.len() as u64;
             (
                 ex + if thorough { 30_000_000 } else { 1_000_000 },
                 ex,
-                format!("every (context, follower, suffix) triple: 70 scanner contexts x 93 follower characters (34 ASCII classes, one representative per UTF-8 lead byte C2..F4, NEL, NBSP, LS, BOM) x 5 suffixes; every sequence of 1..{tl} tokens over the 36-token YAML alphabet {:?} and every string of length <= {l} over the 16-symbol alphabet {:?}, each x 16 environments", crate::gen::TOKENS, crate::gen::C10_ALPHABET),
+                format!("every one of the 54 regular input families at 700 kB; every (context, follower, suffix) triple: 70 scanner contexts x 93 follower characters (34 ASCII classes, one representative per UTF-8 lead byte C2..F4, NEL, NBSP, LS, BOM) x 5 suffixes; every sequence of 1..{tl} tokens over the 36-token YAML alphabet {:?} and every string of length <= {l} over the 16-symbol alphabet {:?}, each x 16 environments", crate::gen::TOKENS, crate::gen::C10_ALPHABET),
             )
         }
         "C01" => {
@@ -79,6 +79,17 @@ pub fn plan(prop: &str, tier: &str, ctx: &Ctx) -> (u64, u64, String) {
             )
         }
         _ => (0, 0, String::new()),
+    }
+}
+
+/// Heavy exhaustive cases (a megabyte each) are spread one per chunk, at the first index of the
+/// first `heavy` chunks, so that the workers share them: `Ok(k)` = the k-th heavy case,
+/// `Err(j)` = the j-th of the remaining cases.
+pub fn spread(i: u64, heavy: u64) -> Result<u64, u64> {
+    if i % CHUNK == 0 && i / CHUNK < heavy {
+        Ok(i / CHUNK)
+    } else {
+        Err(i - heavy.min(i / CHUNK + 1))
     }
 }
 
@@ -638,7 +649,7 @@ fn evidence_json(cfg: &Config, st: &Stats, total: u64, exhaustive: u64, exhausti
     cov.set("max_ticks_per_char_observed", J::Float(st.max_ticks_per_char_x100 as f64 / 100.0));
     cov.set("max_work_ticks_per_char_observed", J::Float(st.max_work_per_char_x100 as f64 / 100.0));
     cov.set("work_ticks_total", J::int(st.work));
-    cov.set("work_bound", J::str("seam ticks <= 200*(chars+16); library-internal loop iterations (guarded work hooks) <= 150*(chars+16); events <= 8*(chars+4)"));
+    cov.set("work_bound", J::str("seam ticks <= 200*(chars+16); library-internal loop iterations (guarded work hooks) <= 1000*(chars+16); events <= 8*(chars+4)"));
     cov.set("fault_counts", faults);
     cov.set("probes", probes);
     cov.set("probes_at_zero", J::Arr(zero));
